@@ -154,3 +154,38 @@ func Verif_C07_collision_race() {
 	e.p.stop()
 	verifAssert("all-closed-after-stop", e.out.closed && e.in.closed && e.pl.nClose == e.pl.nEstab)
 }
+
+// ... also when the other connection has only just been accepted: its FSM exists but the manager has not yet
+// approved its first transition when the first connection becomes Established
+func Verif_C07_established_wins_against_just_accepted() {
+	verifEngineOnly()
+	verifNote("outbound connection in OpenConfirm; an inbound connection from the peer is handed to the manager and, without waiting, the remote's KEEPALIVE arrives on the outbound one: all schedules with at most 2 (quick) / 3 (thorough) delays (so the Established transition is also handled before the new inbound FSM's first transition); the outbound session is Established and kept, the inbound connection is closed, nothing wedges, stop returns with every connection closed and no goroutine left")
+	d := 2
+	if verifTier() >= 1 {
+		d = 3
+	}
+	e := newPenv(false)
+	e.pl.yieldInCallbacks = true
+	e.p.start()
+	co := e.bring(out, stOpenConfirm)
+	if co == nil {
+		return
+	}
+	verifDelayBound(d)
+	ci := newStagedConn("in")
+	e.p.incomingConnection(ci)
+	co.send(verifMsgKeepalive, nil)
+	verifQuiesce()
+	verifDelayBound(0)
+	verifAssert("outbound-established-and-kept", e.pl.nEstab == 1 && e.pl.nClose == 0 && !co.closed && e.p.fsmState[out] == establishedState)
+	verifAssert("just-accepted-inbound-closed", ci.closed)
+	// (no Cease is demanded here: C07 only says the other connection is closed; it may be closed between writing
+	// its OPEN and being granted OpenSent)
+	verifAssert("inbound-slot-free", e.p.fsms[in] == nil)
+	verifCoverIf("closed-before-its-open", len(ci.writes) == 0)
+	verifCoverIf("closed-after-its-open", len(ci.writes) > 0)
+	e.p.stop()
+	verifQuiesce()
+	verifAssert("stop-closes-everything", co.closed && ci.closed && e.pl.nClose == 1)
+	verifAssert("no-goroutine-left", verifGoroutines() == 0)
+}
